@@ -387,3 +387,51 @@ Qed.
 Lemma parse_events_depth fam f a l :
   let c := parse_events fam f a l in 0 <= c_ret c -> depth_ok 0 (abs_events (c_h c)) = true.
 Proof. intros c R. apply (nested_depth _ []). now apply parse_events_nested. Qed.
+
+(* ---------------------------------------------------------------- the same for a loop on the caller's own path
+   (examples/core/parse.c: MPT_PATHFLAG(SepBinary)); every lemma above is generic in the start state *)
+Lemma parse_events_b_total bin fam f a l :
+  let c := parse_events_b bin fam f a l in
+  c_ret c <> ROutOfFuel /\ exists consumed, consumed ++ c_rest c = l.
+Proof.
+  unfold parse_events_b.
+  destruct (config_loop_ok (list event) save_log fam f a (config_fuel l) PSection l (pst_init_b bin) [] (sinv_init_b bin)
+                           (config_fuel_enough l)) as [A B].
+  split; assumption.
+Qed.
+
+Lemma parse_events_b_all bin fam f a l :
+  let c := parse_events_b bin fam f a l in
+  c_ret c <> RFault /\ (0 <= c_ret c -> nested [] (c_h c) = true) /\
+  calls (c_st c) <= (len l - len (c_rest c)) + nev (c_h c) + 1.
+Proof.
+  unfold parse_events_b.
+  assert (I : calls (pst_init_b bin) <= len l - len l + nev []) by (cbn; lia).
+  exact (log_loop fam f a l (config_fuel l) PSection l (pst_init_b bin) [] (sinv_init_b bin) eq_refl eq_refl I (Z.le_refl _)).
+Qed.
+
+Lemma parse_events_b_depth bin fam f a l :
+  let c := parse_events_b bin fam f a l in 0 <= c_ret c -> depth_ok 0 (abs_events (c_h c)) = true.
+Proof. intros c R. apply (nested_depth _ []). now apply (parse_events_b_all bin fam f a l). Qed.
+
+(* without the flag the caller loop is mpt_parse_config *)
+Lemma parse_events_b_false fam f a l : parse_events_b false fam f a l = parse_events fam f a l.
+Proof. reflexivity. Qed.
+
+(* mpt_path_add in the binary format: an element it accepts fits its length byte, the flag stays *)
+Lemma path_add_bin p n p' :
+  pinv2 p -> pbin p = true -> path_add p n = (0, p') ->
+  n <= 255 /\ pbin p' = true /\ pelems p' = pelems p ++ [firstn (Z.to_nat n) (ppost p)] /\
+  len (firstn (Z.to_nat n) (ppost p)) = n /\ (pelems p = [] -> pfirst p' = n).
+Proof.
+  intros I B E. pose proof (pbin_add _ _ _ _ E) as PB.
+  destruct (path_add_spec p n 0 p' I E) as [[X _]|(_ & R & PE & _)]; [lia|].
+  assert (L : len (firstn (Z.to_nat n) (ppost p)) = n).
+  { unfold len. rewrite firstn_length. pose proof (len_ppost p) as LP. destruct I as [I _]. unfold pinv in I.
+    unfold len in LP, I. lia. }
+  unfold path_add in E. destruct (negb (pbuf p)); [discriminate|].
+  destruct ((n <? 0) || (plen p <? n)); [discriminate|]. rewrite B in E.
+  destruct (255 <? n) eqn:C; [discriminate|]. apply Z.ltb_ge in C.
+  split; [exact C|]. split; [congruence|]. split; [exact PE|]. split; [exact L|].
+  intros NE. inversion E. cbn [pfirst]. now rewrite NE.
+Qed.
